@@ -3,6 +3,7 @@ import json
 import os
 
 from .. import a6
+from .. import cfg as C
 from .. import rules as R
 
 VERIF = os.path.dirname(os.path.dirname(os.path.dirname(os.path.abspath(__file__))))
@@ -142,6 +143,50 @@ def run(ctx):
                       "emptiness of the window")
     from .. import a5
     a5.fill_loop_eof_rule(ctx, "C15.L", 15)
+
+    # ---------------------------------------------------------------- lazy field iterators end after an error
+    ctx.rule("C15.F", "lazy cursor iterators (iter::from_fn over a captured slice, guarded by is_empty) end after an error: the Err edge resets "
+                      "the cursor, or the parser is tabled as advancing before it can fail (defect F34: the same error was yielded for ever)")
+    FUSE_TABLE = {
+        "noodles_bcf::record::samples::Samples::<'r>::series":
+            "read_series first takes the typed string-map index (at least the type descriptor byte) off the cursor: it advances before any error",
+        "<noodles_vcf::record::samples::series::value::genotype::Genotype<'_> as noodles_vcf::variant::record::samples::series::value::genotype::Genotype>::iter":
+            "parse_allele starts with next_allele, which always splits at least one character off the cursor",
+    }
+    nf = 0
+    for k, f in sorted(fb.fns.items()):
+        if not f.blocks or not k.startswith(("noodles_", "<noodles_")):
+            continue
+        if not any((c.get("f") or "").endswith("iter::sources::from_fn::from_fn") for _b, c in f.calls()):
+            continue
+        for g in [g for g in fb.fns.values() if g.is_closure and g.parent == k and g.blocks]:
+            if "Option<core::result::Result<" not in g.locals[0]:
+                continue
+            env_reads = set()
+            guard = False
+            for b, c in g.calls():
+                if (c.get("f") or "").endswith("::is_empty") and c["args"]:
+                    guard = True
+            # `&mut` of a captured place handed to a workspace parser
+            hands = [c for b, c in g.calls() if (c.get("f") or "") in fb.fns and any(
+                C.op_local(a) is not None and g.locals[C.op_local(a)].startswith("&mut &") for a in c["args"])]
+            if not guard or not hands:
+                continue
+            nf += 1
+            ctx.saw_fn(g)
+            resets = [st for blk in g.blocks if not blk.get("cu") for st in blk["s"]
+                      if st[0] == "=" and st[1][0] == 1 and st[1][1] and not any(R.derives_from_call(g, o, lambda s_: True) for o in R.rvalue_operands(st[2]))]
+            if resets:
+                ctx.ok("C15.F", k, "the closure resets its captured cursor (a store that derives from no call result) on the error edge", g.loc())
+            elif k in FUSE_TABLE:
+                ctx.ok("C15.F", k, "tabled: " + FUSE_TABLE[k], g.loc())
+            else:
+                ctx.violation("C15.F", "C15.F/unfused-cursor-iterator/" + k,
+                              "%s yields `Some(%s(&mut cursor))` while the cursor is not empty and never resets the cursor: when the parser "
+                              "fails without consuming anything (an invalid type code, a dangling sign) the iterator returns the same "
+                              "error for ever — iterating the fields of a record that was returned Ok does not terminate" % (
+                                  k, hands[0]["f"].split("::")[-1]), g.loc())
+    ctx.floor("C15.F", "error-yielding cursor iterators built with iter::from_fn", nf, 4)
 
     # ---------------------------------------------------------------- field bounds stay inside the buffer
     ctx.rule("C15.P", "A10 line-ending strip: a CR popped from a caller-provided buffer was read by the same call (count >= 2 guard), or every "
